@@ -77,6 +77,9 @@ type Prop struct {
 	NoDrv bool                                                // true: no model driver comparison (oracle only)
 	// Exhaustive reports whether Gen enumerated a finite space completely in this tier.
 	Exhaustive func(tier string) bool
+	// Shrink (optional) proposes simpler variants of a failing case line; the framework
+	// keeps a variant whose oracle still fails with the same sig and repeats (greedy).
+	Shrink func(line string) []string
 }
 
 var registry = map[string]*Prop{}
